@@ -30,30 +30,12 @@ import GoaktVerif.Spec.C32
 import GoaktVerif.Lemmas.C32
 import GoaktVerif.Lemmas.C32Alloc
 import GoaktVerif.Lemmas.C32Grains
+import GoaktVerif.Lemmas.C32Redis
 
 namespace GoaktVerif.C32
 open GoaktVerif.Model.C32
 
 /-! ### small list facts -/
-
-theorem perm_three {α : Type} (p q r : α → Bool)
-    (h : ∀ a, (p a = true ∧ q a = false ∧ r a = false) ∨ (p a = false ∧ q a = true ∧ r a = false)
-      ∨ (p a = false ∧ q a = false ∧ r a = true)) (l : List α) :
-    l.Perm (l.filter p ++ l.filter q ++ l.filter r) := by
-  induction l with
-  | nil => simp
-  | cons a l ih =>
-    rcases h a with ⟨hp, hq, hr⟩ | ⟨hp, hq, hr⟩ | ⟨hp, hq, hr⟩
-    · simp only [List.filter_cons, hp, hq, hr, ↓reduceIte, Bool.false_eq_true, List.cons_append]
-      exact List.Perm.cons a ih
-    · simp only [List.filter_cons, hp, hq, hr, ↓reduceIte, Bool.false_eq_true]
-      refine (List.Perm.cons a ih).trans ?_
-      rw [List.append_assoc, List.append_assoc]
-      refine List.perm_middle.symm.trans ?_
-      simp
-    · simp only [List.filter_cons, hp, hq, hr, ↓reduceIte, Bool.false_eq_true]
-      refine (List.Perm.cons a ih).trans ?_
-      exact List.perm_middle.symm
 
 theorem mem_flatten_iff_getD {α : Type} (ss : List (List α)) (a : α) :
     a ∈ ss.flatten ↔ ∃ i, i < ss.length ∧ a ∈ ss.getD i [] := by
@@ -115,22 +97,6 @@ theorem nodup_flatten_unique {α : Type} (ss : List (List α)) (hn : ss.flatten.
         rw [ih hn2 i j hi hj]
 
 /-! ### A. allocateActors: partition, eligibility, unplaceable, singletons -/
-
-/-- the three-way split of the departed node's entries that `allocateActors` computes -/
-theorem alloc_partition (targets : List (List Role)) (base : List Nat) (order : List Actor) :
-    let st := allocRun targets base order
-    order.Perm (st.singles ++ st.shares.flatten ++ st.unplaceable) := by
-  intro st
-  have inv := allocInv_run targets base order
-  have h3 := perm_three (fun a : Actor => a.singleton) (placeable targets) (orphan targets)
-    (by
-      intro a
-      simp only [placeable, orphan]
-      cases a.singleton <;> cases eligibleSomewhere targets a.role <;> simp) order
-  refine h3.trans ?_
-  show (List.filter (fun a => a.singleton) order ++ _ ++ _).Perm (st.singles ++ st.shares.flatten ++ st.unplaceable)
-  rw [inv.singles_eq, inv.unpl_eq]
-  exact List.Perm.append_right _ (List.Perm.append_left _ inv.placed_perm.symm)
 
 def C32_actors : Prop :=
   ∀ (leaderRoles : List Role) (peers : List (List Role)) (base : List Nat) (order : List Actor),
@@ -319,14 +285,6 @@ def C32_redistribute : Prop :=
     ∧ (r.grainShares.flatten ++ r.leaderGrains).Perm grains
     ∧ (survivors ≠ [] → r.grainShares.length = survivors.length ∧ r.leaderGrains = [])
     ∧ (survivors = [] → r.grainShares = [] ∧ r.leaderGrains = grains)
-
-theorem redistribute_fields (requests : List Request) (survivors : List (List Role)) (leaderRoles : List Role) :
-    let st := (reassignByRole requests survivors leaderRoles).1
-    (redistribute requests survivors leaderRoles).actorShares = st.shares
-    ∧ (redistribute requests survivors leaderRoles).leaderActors = st.leader
-    ∧ (redistribute requests survivors leaderRoles).failedActors = st.failed := by
-  simp only [redistribute]
-  split <;> simp
 
 theorem C32_redistribute_holds : C32_redistribute := by
   intro requests survivors leaderRoles actors grains r
